@@ -184,5 +184,10 @@ def run(ctx):
     ctx.absorb(it)
     ctx.absorb(it2)
     ctx.notes.extend((it.unknown_notes + it2.unknown_notes)[:6])
+    # ---- R09.3 no unsynchronised derived state on the objects this property queries (shared rule, see statecache.py)
+    from ..statecache import instance_memo_rule as _memo, positive_example as _memo_pos
+    _memo(ctx, "R09.3", [p.get_class("wavephysics.balance.source_term.SourceTerm"), p.get_class("wavephysics.balance.balance.SourceTermBalance")], "source-term classes")
+    _memo_pos(ctx, "R09.3")
+    ctx.require_count("R09.3", 2)
     ctx.require_count("R09.1", 9)
     ctx.require_count("R09.2", 11)
